@@ -380,10 +380,10 @@ impl<F: Field> Polynomial<F, LagrangeCoeff> {
     /// Rotates the values in a `LagrangeCoeff` polynomial by `Rotation`
     pub fn rotate(&self, rotation: Rotation) -> Polynomial<F, LagrangeCoeff> {
         let mut values = self.values.clone();
-        if rotation.0 < 0 {
-            values.rotate_right((-rotation.0) as usize);
-        } else {
-            values.rotate_left(rotation.0 as usize);
+        // Rotations are taken modulo the domain size (omega^n = 1).
+        if !values.is_empty() {
+            let n = values.len() as i64;
+            values.rotate_left((rotation.0 as i64).rem_euclid(n) as usize);
         }
         Polynomial {
             values,
